@@ -138,6 +138,9 @@ pub struct HostileOutcome {
 pub fn hostile_run<A: StationApps>(world: &mut World<A>, env: usize, cfg: &ScriptCfg, rng: &mut Rng, actions: &[u8], api: &mut dyn FnMut(&mut World<A>, &mut Rng)) -> HostileOutcome {
     let mut out = HostileOutcome { states: Default::default(), pairs: Default::default() };
     let tslot = cfg.tslot();
+    let mut burst_left = 0usize;
+    let mut burst_end: Us = 0;
+    let mut burst_prev: Vec<u8> = Vec::new();
     for act in actions {
         if world.stations[0].panic.is_some() {
             break;
@@ -151,8 +154,26 @@ pub fn hostile_run<A: StationApps>(world: &mut World<A>, env: usize, cfg: &Scrip
         out.states.insert(st);
         out.pairs.insert((st.0, st.1, *act));
         let now = world.now;
-        let last_end = world.bus.borrow().trace.last().map(|f| f.end).unwrap_or(0);
+        let last_end = world.bus.borrow().trace.last().map(|f| f.end).unwrap_or(0).max(burst_end);
         match action_bytes(*act, cfg.ts, ps, ns, awaiting, rng) {
+            Some(bytes) if burst_left > 0 || rng.chance(1, 4) => {
+                // (many rules of the protocol are about the same thing happening twice)
+                let bytes = if burst_left > 0 && !burst_prev.is_empty() && rng.chance(1, 3) { burst_prev.clone() } else { bytes };
+                burst_prev = bytes.clone();
+                // a burst: this telegram and the next one to three follow each other back to back and the
+                // world only runs after the last one, so that a slow poller finds several telegrams at once
+                if burst_left == 0 {
+                    burst_left = 2 + rng.usize(4);
+                }
+                burst_left -= 1;
+                let start = (last_end + cfg.bits(rng.below(3))).max(now + 1);
+                world.schedule_device_tx(start, env, bytes.clone());
+                burst_end = start + cfg.bits(11 * bytes.len() as u64);
+                if burst_left == 0 {
+                    let until = burst_end + rng.below((tslot * 2).max(1) as u64) as Us;
+                    run_world_until(world, until);
+                }
+            }
             Some(bytes) => {
                 // sometimes well-timed, sometimes far too early (collisions are part of the input space)
                 let gap = match rng.usize(5) {
@@ -573,7 +594,7 @@ pub fn c05(ctx: &mut Ctx) {
         }
     }
     // random deep scripts
-    let n = ctx.n(6000, 1_000_000, 2);
+    let n = ctx.n(6000, 300_000, 2);
     for k in 0..n {
         if ctx.over_budget() {
             break;
@@ -585,7 +606,7 @@ pub fn c05(ctx: &mut Ctx) {
         hostile_single(&mut ctx.rep, seed, i, None, prefix, app, false);
     }
     // (b) DP rig
-    let n = ctx.n(3000, 400_000, 1);
+    let n = ctx.n(3000, 150_000, 1);
     for k in 0..n {
         if ctx.over_budget() {
             break;
@@ -595,7 +616,7 @@ pub fn c05(ctx: &mut Ctx) {
         hostile_dp(&mut ctx.rep, seed, i, false);
     }
     // (c) rings under fault plans: only panics / hangs / contract breaches are judged here
-    let n = ctx.n(1500, 150_000, 1);
+    let n = ctx.n(1500, 60_000, 1);
     for k in 0..n {
         if ctx.over_budget() {
             break;
@@ -609,7 +630,7 @@ pub fn c05(ctx: &mut Ctx) {
         translate_ring(&mut ctx.rep, &tmp);
     }
     // (d) mutational replay
-    let n = ctx.n(3000, 300_000, 1);
+    let n = ctx.n(3000, 120_000, 1);
     for k in 0..n {
         if ctx.over_budget() {
             break;
